@@ -24,7 +24,15 @@ def perp(rho, phi):
     return rho * math.cos(phi), rho * math.sin(phi)
 
 
+DIM = [3]
+
+
 def sep(direction, sd, a, b):
+    if DIM[0] == 2:
+        s = [0.0, 0.0]
+        s[direction] = sd
+        s[1 - direction] = a
+        return s
     s = [0.0, 0.0, 0.0]
     s[direction] = sd
     s[(direction + 1) % 3] = a
@@ -79,20 +87,40 @@ def radial(spec, charge):
 
 def check_open(case):
     """case = ("open", potential spec, L, charge, direction, rho, phi, [s_d...], speed)"""
-    _, spec, L, charge, direction, rho, phi, sds, speed, tier = case
-    init_setting((L, L, L), cubic=True)
+    _, spec, L, charge, direction, rho, phi, sds, speed, tier = case[:10]
+    DIM[0] = case[10] if len(case) > 10 else 3
+    init_setting((L,) * DIM[0], cubic=True)
     pot = make_potential(spec)
     U, crit, req = radial(spec, charge)
     a, b = perp(rho, phi)
+    if DIM[0] == 2:
+        a, b = rho, 0.0
     rho2 = a * a + b * b
     fails = []
     sigs = set()
     nev = 0
-    vel = [0.0, 0.0, 0.0]
+    vel = [0.0] * DIM[0]
     vel[direction] = speed
     has_charge = spec[0] == "invpow"
+    head_on = rho2 == 0.0
     for sd in sds:
         if rho2 + sd * sd < 1e-8:
+            continue
+        if head_on:
+            # exactly aligned units (every 1-D configuration): only totality and sign are decided here
+            for E in (1e-3, 0.5, 20.0):
+                nev += 1
+                s = sep(direction, sd, 0.0, 0.0)
+                args = (vel, s, 1.0, charge, E) if has_charge else (vel, s, E)
+                try:
+                    t = pot.displacement(*args)
+                    if not isinstance(t, float) or t != t or t < -1e-12 * L:
+                        fails.append(("totality-head-on", "%r charge=%r direction=%d head-on separation=%r budget=%r: "
+                                      "displacement returned %r" % (spec, charge, direction, s, E, t)))
+                except Exception as e:
+                    fails.append(("totality-head-on", "%r charge=%r direction=%d head-on separation=%r budget=%r: "
+                                  "displacement raised %r" % (spec, charge, direction, sep(direction, sd, 0.0, 0.0), E, e)))
+            sigs.add((spec[0], charge > 0, "head-on", sd > 0, DIM[0]))
             continue
         hill, umax = physics.total_uphill_open(U, sd, rho2, crit, far=1e7)
         if not (hill < INF):
@@ -129,7 +157,7 @@ def check_open(case):
             # the hill height itself is only known to eps * |U| (difference of two energies of size |U|)
             near_hill = (not unbounded) and hill > 0 and abs(E - hill) < 1e-6 * hill + 1e-11 * max(umax, scale)
             if t == INF:
-                sigs.add((spec[0], charge > 0, "inf", sd > 0, req is not None and rho < req))
+                sigs.add((spec[0], charge > 0, "inf", sd > 0, req is not None and rho < req, DIM[0]))
                 if not near_hill and (unbounded or hill > E * (1 + 1e-9)):
                     fails.append(("infinite-but-reachable", "%r charge=%r direction=%d separation=%r budget=%r: "
                                   "displacement is infinite although the path accumulates %r"
@@ -139,7 +167,7 @@ def check_open(case):
             u, um = physics.uphill_open(U, sd, rho2, D, crit)
             tol = 1e-9 * E + 1e-11 * max(um, scale)
             sigs.add((spec[0], charge > 0, "finite", sd > 0, req is not None and rho < req,
-                      req is not None and math.sqrt(rho2 + sd * sd) < req, D > sd))
+                      req is not None and math.sqrt(rho2 + sd * sd) < req, D > sd, DIM[0]))
             if near_hill:
                 continue
             if not unbounded and hill < E * (1 - 1e-9):
@@ -160,6 +188,7 @@ def check_open(case):
 def check_cbound(case):
     """case = ("cbound", prefactor, L, charge, direction, rho, phi, [s_d...], speed)"""
     _, k, L, charge, direction, rho, phi, sds, speed, tier = case
+    DIM[0] = 3
     init_setting((L, L, L), cubic=True)
     pot = make_potential(("cbound", k))
     a, b = perp(rho, phi)
@@ -333,6 +362,7 @@ def sd_lattice(rho, req, L, thorough):
     grid = [-0.45, -0.3, -0.2, -0.1, -0.05, -0.01, 0.01, 0.05, 0.1, 0.2, 0.3, 0.45]
     if thorough:
         grid += [-0.4, -0.25, -0.15, -0.02, 0.02, 0.15, 0.25, 0.4, 1e-6, -1e-6]
+        grid += [(-0.5 + (i + 0.5) / 24.0) for i in range(24)]
     vals += [g * L for g in grid]
     if req is not None and req > rho:
         w = math.sqrt(req * req - rho * rho)
@@ -348,6 +378,7 @@ def rho_lattice(req, L, thorough):
     vals = [0.02 * L, 0.1 * L, 0.3 * L]
     if thorough:
         vals += [0.005 * L, 0.05 * L, 0.2 * L, 0.45 * L]
+        vals += [(0.01 + 0.06 * i) * L for i in range(8)]
     if req is not None:
         vals += around(req, 5) + [0.5 * req, 0.9 * req, 1.1 * req, 2 * req]
         if thorough:
@@ -366,6 +397,8 @@ def cases(ctx):
     for spec, charges, L in potentials:
         req = radial(spec, 1.0)[2]
         for charge in charges:
+            for direction in (0, 1, 2):
+                yield ("open", spec, L, charge, direction, 0.0, 0.0, [0.3 * L, -0.3 * L, 0.05 * L], 1.0, T)
             for rho in rho_lattice(req, L, ctx.thorough):
                 for phi in (0.0, 0.7):
                     for direction in (0, 1, 2):
@@ -373,6 +406,13 @@ def cases(ctx):
                             continue
                         yield ("open", spec, L, charge, direction, rho, phi, sd_lattice(rho, req, L, ctx.thorough),
                                1.0, T)
+    # two-dimensional systems (the vector helpers must not assume three components)
+    for spec, charges, L in potentials[:3] + potentials[5:6] + potentials[7:8]:
+        req = radial(spec, 1.0)[2]
+        for charge in charges[:2]:
+            for rho in rho_lattice(req, L, False):
+                for direction in (0, 1):
+                    yield ("open", spec, L, charge, direction, rho, 0.0, sd_lattice(rho, req, L, False), 1.0, T, 2)
     for k in (1.5837, 1.6, 531.2):
         for L in (1.0, 2.5, 10.0):
             for charge in (1.0, -1.0, 0.5):
